@@ -11,7 +11,21 @@ ATOL = 1e-9
 RTOL = 1e-7
 
 
+_SINGLE = [False]
+
+
+def set_single(flag):
+    """Run configuration dtype float32: every comparison allows single-precision rounding (about 7 digits per operation)."""
+    _SINGLE[0] = bool(flag)
+
+
+def is_single():
+    return _SINGLE[0]
+
+
 def close(a, b, atol=ATOL, rtol=RTOL):
+    if _SINGLE[0]:
+        atol, rtol = max(atol, 2e-5), max(rtol, 2e-3)
     a = np.asarray(a, dtype=float)
     b = np.asarray(b, dtype=float)
     if a.shape != b.shape:
